@@ -268,6 +268,9 @@ def groups(tier):
   for k in TERMINATORS:
     for warn in (False, True):
       gs.append((f"transition:{k}:{warn}", g_transition(k, warn)))
+    # "the tolerance test" is the world's own: every per-world / batched parameter the termination kernel
+    # reads (opt.tolerance, stat.meaninertia, ctx.*) is indexed by the thread's world (modulo the batch size)
+    gs.append((f"own_world:{k}", schemas.kernel_group(k, ("MODULO", "ISOLATION"))))
   gs.append(("init", g_init))
   gs.append(("host_loop", g_host_loop))
   kernels = sorted({s.kernel for s in launchsites.bound_sites("solver:_solver_iteration") if s.kernel})
